@@ -1279,9 +1279,9 @@ cost is finite; the table then holds rows of the file only — so every surcharg
 finite number (C07 "finite", for the one place where a non-finite number could enter from a file) -/
 theorem lookup_builder_build (finite : α → Bool) (f : CsvFile (Nat × α)) :
     (∀ r, (NetworkCostRateBuilder.edgeLookup f).build finite = some r →
-      ∃ rows, f.present = true ∧ f.rows = rows.map Row.ok ∧ r = .edgeLookup (collectTable rows)
+      ∃ rows, f.present = true ∧ f.hasHeader = true ∧ f.rows = rows.map Row.ok ∧ r = .edgeLookup (collectTable rows)
         ∧ ∀ p ∈ collectTable rows, finite p.2 = true) ∧
-    (∀ rows, f.present = true → f.rows = rows.map Row.ok → (∀ p ∈ rows, finite p.2 = true) →
+    (∀ rows, f.present = true → f.hasHeader = true → f.rows = rows.map Row.ok → (∀ p ∈ rows, finite p.2 = true) →
       (NetworkCostRateBuilder.edgeLookup f).build finite = some (.edgeLookup (collectTable rows))) := by
   constructor
   · intro r h
@@ -1289,28 +1289,31 @@ theorem lookup_builder_build (finite : α → Bool) (f : CsvFile (Nat × α)) :
     by_cases hp : f.present = false
     · simp [hp] at h
     · rw [if_neg hp] at h
-      cases hd : decodeRows f.rows with
-      | error e => simp [hd] at h
-      | ok rows =>
-        simp only [hd] at h
-        split at h
-        · rename_i hall
-          simp only [Option.some.injEq] at h
-          refine ⟨rows, by simpa using hp, decodeRows_eq_ok _ _ hd, h.symm, ?_⟩
-          intro p hp'
-          exact List.all_eq_true.mp hall p (collectTable_subset rows p hp')
-        · cases h
-  · intro rows hp hr hf
+      by_cases hh : f.hasHeader = false
+      · simp [hh] at h
+      · rw [if_neg hh] at h
+        cases hd : decodeRows f.rows with
+        | error e => simp [hd] at h
+        | ok rows =>
+          simp only [hd] at h
+          split at h
+          · rename_i hall
+            simp only [Option.some.injEq] at h
+            refine ⟨rows, by simpa using hp, by simpa using hh, decodeRows_eq_ok _ _ hd, h.symm, ?_⟩
+            intro p hp'
+            exact List.all_eq_true.mp hall p (collectTable_subset rows p hp')
+          · cases h
+  · intro rows hp hh hr hf
     have hd : decodeRows (rows.map Row.ok) = .ok rows := decodeRows_map_ok rows
     have hall : rows.all (fun r => finite r.2) = true := List.all_eq_true.mpr hf
-    simp [NetworkCostRateBuilder.build, readCsv, hp, hr, hd, hall]
+    simp [NetworkCostRateBuilder.build, readCsv, hp, hh, hr, hd, hall]
 
 /-- the same for the edge-pair builder -/
 theorem pair_lookup_builder_build (finite : α → Bool) (f : CsvFile ((Nat × Nat) × α)) :
     (∀ r, (NetworkCostRateBuilder.edgeEdgeLookup f).build finite = some r →
-      ∃ rows, f.present = true ∧ f.rows = rows.map Row.ok ∧ r = .edgeEdgeLookup (collectTable rows)
+      ∃ rows, f.present = true ∧ f.hasHeader = true ∧ f.rows = rows.map Row.ok ∧ r = .edgeEdgeLookup (collectTable rows)
         ∧ ∀ p ∈ collectTable rows, finite p.2 = true) ∧
-    (∀ rows, f.present = true → f.rows = rows.map Row.ok → (∀ p ∈ rows, finite p.2 = true) →
+    (∀ rows, f.present = true → f.hasHeader = true → f.rows = rows.map Row.ok → (∀ p ∈ rows, finite p.2 = true) →
       (NetworkCostRateBuilder.edgeEdgeLookup f).build finite = some (.edgeEdgeLookup (collectTable rows))) := by
   constructor
   · intro r h
@@ -1318,21 +1321,24 @@ theorem pair_lookup_builder_build (finite : α → Bool) (f : CsvFile ((Nat × N
     by_cases hp : f.present = false
     · simp [hp] at h
     · rw [if_neg hp] at h
-      cases hd : decodeRows f.rows with
-      | error e => simp [hd] at h
-      | ok rows =>
-        simp only [hd] at h
-        split at h
-        · rename_i hall
-          simp only [Option.some.injEq] at h
-          refine ⟨rows, by simpa using hp, decodeRows_eq_ok _ _ hd, h.symm, ?_⟩
-          intro p hp'
-          exact List.all_eq_true.mp hall p (collectTable_subset rows p hp')
-        · cases h
-  · intro rows hp hr hf
+      by_cases hh : f.hasHeader = false
+      · simp [hh] at h
+      · rw [if_neg hh] at h
+        cases hd : decodeRows f.rows with
+        | error e => simp [hd] at h
+        | ok rows =>
+          simp only [hd] at h
+          split at h
+          · rename_i hall
+            simp only [Option.some.injEq] at h
+            refine ⟨rows, by simpa using hp, by simpa using hh, decodeRows_eq_ok _ _ hd, h.symm, ?_⟩
+            intro p hp'
+            exact List.all_eq_true.mp hall p (collectTable_subset rows p hp')
+          · cases h
+  · intro rows hp hh hr hf
     have hd : decodeRows (rows.map Row.ok) = .ok rows := decodeRows_map_ok rows
     have hall : rows.all (fun r => finite r.2) = true := List.all_eq_true.mpr hf
-    simp [NetworkCostRateBuilder.build, readCsv, hp, hr, hd, hall]
+    simp [NetworkCostRateBuilder.build, readCsv, hp, hh, hr, hd, hall]
 
 /-- a combined builder builds every part, in order, and fails when one of them fails -/
 theorem combined_builder_build (finite : α → Bool) (bs : List (NetworkCostRateBuilder α)) :
@@ -1492,16 +1498,19 @@ example : ((buildCostService numQ exConfig).map fun s =>
        errOf (s.build numQ (.obj [("weights", .obj [("distance", .num "0" 0)])]) ["distance", "time"]),
        errOf (s.build numQ (.obj [("weights", .str "distance")]) ["distance", "time"])))
     = some (some .unknownWeights, some .newFailed, some .serde) := by decide +kernel
--- §15: two rows for edge 3, the last one counts; a missing file, an undecodable row, a non-finite cost fail
-example : ((NetworkCostRateBuilder.edgeLookup (CsvFile.mk true 4 [.ok (3, (1 : ℚ)), .ok (5, 2), .ok (3, 7)])).build
+-- §15: two rows for edge 3, the last one counts; a missing file, an undecodable row, a non-finite cost,
+-- a file without any content (no header row) fail
+example : ((NetworkCostRateBuilder.edgeLookup (CsvFile.mk true 4 true [.ok (3, (1 : ℚ)), .ok (5, 2), .ok (3, 7)])).build
       (fun _ => true)).map
       (fun r => (r.traversalCost 3, r.traversalCost 5, r.traversalCost 4)) = some (7, 2, 0) := by decide +kernel
-example : ((NetworkCostRateBuilder.edgeLookup (CsvFile.mk false 0 ([] : List (Row (Nat × ℚ))))).build
+example : ((NetworkCostRateBuilder.edgeLookup (CsvFile.mk false 0 true ([] : List (Row (Nat × ℚ))))).build
       (fun _ => true)).isNone = true
-    ∧ ((NetworkCostRateBuilder.edgeLookup (CsvFile.mk true 2 [.ok (3, (1 : ℚ)), .bad])).build
+    ∧ ((NetworkCostRateBuilder.edgeLookup (CsvFile.mk true 2 true [.ok (3, (1 : ℚ)), .bad])).build
       (fun _ => true)).isNone = true
-    ∧ ((NetworkCostRateBuilder.edgeLookup (CsvFile.mk true 2 [.ok (3, (1 : ℚ))])).build
-      (fun x => decide (x ≠ 1))).isNone = true := by decide +kernel
+    ∧ ((NetworkCostRateBuilder.edgeLookup (CsvFile.mk true 2 true [.ok (3, (1 : ℚ))])).build
+      (fun x => decide (x ≠ 1))).isNone = true
+    ∧ ((NetworkCostRateBuilder.edgeLookup (CsvFile.mk true 0 false ([] : List (Row (Nat × ℚ))))).build
+      (fun _ => true)).isNone = true := by decide +kernel
 
 end C07
 end Compass
